@@ -140,7 +140,7 @@ trait TwinFilter {
     fn upd(&mut self) -> NothingOrError<E>;
     fn read(&self) -> Obs;
 }
-impl<G: Getter<f32, E> + ?Sized> TwinFilter for EWMAStream<f32, G, E> {
+impl<G: Getter<f32, E>> TwinFilter for EWMAStream<f32, G, E> {
     fn upd(&mut self) -> NothingOrError<E> {
         self.update()
     }
@@ -148,7 +148,7 @@ impl<G: Getter<f32, E> + ?Sized> TwinFilter for EWMAStream<f32, G, E> {
         obs(&self.get())
     }
 }
-impl<G: Getter<f32, E> + ?Sized> TwinFilter for MovingAverageStream<f32, G, E> {
+impl<G: Getter<f32, E>> TwinFilter for MovingAverageStream<f32, G, E> {
     fn upd(&mut self) -> NothingOrError<E> {
         self.update()
     }
